@@ -69,6 +69,44 @@ def scenario(e, cfg, built=None):
             ctx.__exit__(None, None, None)
 
 
+def pool_scenario(e, cfg):
+    """One multi-writer call through the worker pool (contract stub of c09: workers finish in a solver-chosen order, arguments
+    and results cross a pickle boundary): unshuffled iteration yields the call's examples in ARGUMENT order."""
+    common.import_sedpack()
+    import sedpack.io.dataset_writing as DW
+    from sedpack.io import Dataset
+    from . import c09
+    from .. import fillerlab
+    with common.scratch_dir("vt03p_") as tmp:
+        d = fillerlab.make_dataset(tmp / "ds", eps=2, hashes=("md5",))
+        W = cfg["writers"]
+        loads, v = [], 100
+        for w in range(W):
+            ntr = e.choice(f"train_load{w}", 3) + 1
+            loads.append((list(range(v, v + ntr)), [v + 10]))
+            v += 20
+        log = []
+        old_pool = DW.Pool
+        DW.Pool = c09.make_pool(e, log)
+        try:
+            d.write_multiprocessing(feed_writer=c09.feed, custom_arguments=[(w, tr, te) for w, (tr, te) in enumerate(loads)],
+                                    consistency_check=False)
+        except CexFound:
+            raise
+        except Exception as exc:  # noqa: BLE001
+            e.fail(f"write_multiprocessing raised {type(exc).__name__}: {str(exc)[:100]}", dict(kind=f"pool-write-raised-{type(exc).__name__}"))
+        finally:
+            DW.Pool = old_pool
+        what = f"{W} writers finishing in order {log[-1][1] if log else None}"
+        for sp, idx in (("train", 0), ("test", 1)):
+            want = [x for ld in loads for x in ld[idx]]
+            for handle, label in ((d, "same handle"), (Dataset(d.path), "reopened")):
+                got = [int(x["a"][0]) for x in handle.as_numpy_iterator(split=sp, repeat=False, shuffle=0)]
+                e.prove(got == want, f"{what}: unshuffled iteration of {sp} ({label}) yields {got}, the writers wrote (argument order) {want}",
+                        dict(kind="multi-writer-call-not-in-argument-order"))
+        return dict(writers=W, order=log[-1][1] if log else None)
+
+
 def tf_pipeline_case(layout):
     """as_tfdataset on a tfrec dataset with shuffle=0: the recorded pipeline must not contain anything that may reorder."""
     import sedpack.io.dataset_iteration as DI
@@ -97,6 +135,8 @@ def tf_pipeline_case(layout):
 
 def _cell(cell):
     common.import_sedpack()
+    if cell.get("pool"):
+        return explore(lambda e: pool_scenario(e, cell))
     with common.scratch_dir("vt03_") as tmp:
         built = iterscen.build(tmp, cell["layout"])
         return explore(lambda e: scenario(e, cell, built))
@@ -111,6 +151,8 @@ def cells(tier):
                 if sp == "test" and layout in ("four-shards", "singles"):
                     continue
                 out.append(dict(iface=iface, layout=layout, split=sp))
+    out.append(dict(pool=True, writers=2, iface="pool", layout="pool", split="train"))
+    out.append(dict(pool=True, writers=3, iface="pool", layout="pool", split="train"))
     return out
 
 
@@ -121,6 +163,8 @@ def run(tier, seed):
     viols = c02.collect(st, PROP, cs)
     for v in viols:
         v.case["cfg"].pop("shuffled", None)
+        if "multi-writer-call" in v.signature or "pool-write-raised" in v.signature:
+            v.case["cfg"] = dict(pool=True, writers=sum(1 for k in v.case["model"] if k.startswith("train_load")))
     tfp = []
     for layout in ("short-last", "nested"):
         tfp += tf_pipeline_case(layout)
@@ -141,7 +185,8 @@ def run(tier, seed):
                     "write order, equality of passes, equality with the sequential reader (a T-independent oracle).  For tfrec "
                     "as_tfdataset the recorded tf.data pipeline must contain no reordering construct (TF's ordering contract).",
         functions=FUNCS,
-        bounds=dict(layouts=sorted({c["layout"] for c in cs}), T="1..shards+2 (both passes)", cells=len(cs)),
+        bounds=dict(layouts=sorted({c["layout"] for c in cs}), T="1..shards+2 (both passes)", cells=len(cs),
+                    pool="one multi-writer call of 2..3 writers (1..3 train examples each) through the pool contract stub, every completion order"),
         stats=st.as_dict(), samples=st.samples,
         assumptions=["ThreadPoolExecutor contract (map in submission order; submit evaluates the call)", "RustIter contract (C15: input order)",
                      "tf.data: interleave(cycle_length=1) / map(deterministic) keep order (recorded, not executed)"],
@@ -163,6 +208,12 @@ def replay(case):
         p = tf_pipeline_case("short-last") + tf_pipeline_case("nested")
         return bool(p), str(p)
     cfg = case["cfg"]
+    if cfg.get("pool"):
+        try:
+            pool_scenario(ConcreteEngine(case["model"]), cfg)
+        except CexFound as c:
+            return True, f"reproduced with {case['model']}: {c.msg}"
+        return False, "not reproduced"
     try:
         scenario(ConcreteEngine(case["model"]), cfg)
     except CexFound as c:
